@@ -468,6 +468,17 @@ func runRecScript(t *testing.T, sc Script, log *Log) {
 				st.cmu.Lock()
 				st.inject[key] = append(st.inject[key], recInject{nth: st.ncalls[key] + op.Nth, do: op.Do})
 				st.cmu.Unlock()
+			case "probes":
+				// the progress published by the reconciler, read every Ms (virtual) milliseconds N times: at each of
+				// these instants every goroutine is blocked, i.e. no round is under way
+				for i := 0; i < op.N; i++ {
+					time.Sleep(time.Duration(op.Ms) * time.Millisecond)
+					synctest.Wait()
+					t0 := st.now()
+					ret, lw, err := st.r.WaitUntilReconciled(ctx, 0)
+					st.emit(Ev{"op": "waitret", "req": 0, "ret": int(ret), "lw": int(lw), "err": errKind(err),
+						"t0": t0, "t": st.now(), "q": true})
+				}
 			case "injectrefresh":
 				st.cmu.Lock()
 				st.refreshInj = append(st.refreshInj, recInject{nth: op.K, do: op.Do})
